@@ -47,6 +47,13 @@ func runFmtLike(c *core.Check, chk func(*core.Check, string, map[string]any) boo
 	c.Extra["e1_constants"] = e1c
 	streamTLC(c, core.TLCRun{Module: "MC_E1", Consts: e1c, Timeout: minutes(30), KeepVars: []string{"e", "fv", "last"}},
 		func(st core.State) { e1h(c, st) })
+	// heredoc and flush heredoc templates as attribute values and inside brackets
+	hd := "1"
+	if c.Tier == "thorough" {
+		hd = "2"
+	}
+	streamTLC(c, core.TLCRun{Module: "MC_E1", Consts: map[string]string{"MaxD": hd, "Level2": "\"heredoc\""}, Timeout: minutes(30), KeepVars: []string{"e", "fv", "last"}},
+		func(st core.State) { e1h(c, st) })
 	consts := map[string]string{"MaxItems": "2", "MaxL": "1", "LabelMode": "\"full\""}
 	if c.Tier == "thorough" {
 		consts = map[string]string{"MaxItems": "2", "MaxL": "2", "LabelMode": "\"full\""}
